@@ -29,7 +29,7 @@ ILL = ["self-ref", "cycle", "cycle-cross-branch", "deep-ambivalence", "compound-
 PYTEST = True     # thorough tier also runs the repository's own tests under these monitors
 MANDATORY = ["judged:accepted=>well-defined", "judged:tree=>accepted", "judged:sharing=>accepted", "contract:AtLeast.errors"] + \
             ["count:ill:" + c for c in ILL] + ["count:ill-rejected", "count:class:tree", "count:class:share-identity",
-                                               "count:class:share-copy", "count:class:share-other-class", "count:class:share-negated-copy"]
+                                               "count:class:share-copy", "count:class:share-other-class", "count:class:share-negated-copy", "count:class:edit-after-validation"]
 
 
 def is_tree(model):
@@ -252,7 +252,7 @@ def gen_case(rng, tier, ctx, i):
         o = common.varied_opts(rng, tier, p_share=0.3, p_copy=0.2)
         rec = common.model_case(rng, tier, o)
         return None if rec is None else {"class": "share?", "recipe": rec}
-    return {"class": rng.choice(["share-other-class", "share-other-class", "share-negated-copy"]), "seed": rng.getrandbits(32)}
+    return {"class": rng.choice(["share-other-class", "share-other-class", "share-negated-copy", "edit-after-validation"]), "seed": rng.getrandbits(32)}
 
 
 def run_case(case, ctx):
@@ -260,6 +260,30 @@ def run_case(case, ctx):
     if cls in ILL:
         m = build_ill(cls, random.Random(case["seed"]))
         ctx.count("count:ill:" + cls)
+        ctx.call("errors", m.errors)
+        return
+    if cls == "edit-after-validation":
+        # one object: validated, then changed in place at least one level below the root's own child list so that it is ill-defined,
+        # then validated again (each answer is about the object as it is at that moment)
+        rng = random.Random(case["seed"])
+        x01 = lambda: puan.variable("x", (0, 1))
+        m = pg.All(pg.Any(pg.Any(x01(), "y", variable="B"), "p", variable="P"), pg.Any(pg.All("a", "b", variable="C"), "q", variable="Q"), "a", variable="M")
+        ctx.count("count:class:edit-after-validation")
+        ctx.call("errors", m.errors)
+        P = next(c for c in m.propositions if c.id == "P")
+        Q = next(c for c in m.propositions if c.id == "Q")
+        how = rng.choice(["leaf-other-bounds", "second-definition", "dup-child", "cycle"])
+        if how == "leaf-other-bounds":
+            next(c for c in P.propositions if c.id == "B").propositions.append(puan.variable("a", (0, 5)))       # 'a' is (0,1) elsewhere
+        elif how == "second-definition":
+            Q.propositions.append(pg.Any("a", "b", variable="C"))                                              # C is All(a,b) next to it
+            Q.propositions.sort()
+        elif how == "dup-child":
+            B = next(c for c in P.propositions if c.id == "B")
+            B.propositions.append(x01())
+        else:
+            next(c for c in Q.propositions if c.id == "C").propositions.append(puan.variable("M"))               # refers back to the root
+        ctx.count("count:ill:edited-" + how)
         ctx.call("errors", m.errors)
         return
     if cls == "share-negated-copy":
